@@ -490,6 +490,14 @@ def cases(ctx):
             for g in ({"l": nv, "r": 0, "edges": []}, {"l": nv, "r": 3, "edges": [[u, v] for u in range(1, nv + 1) for v in (3, 1)]},
                       {"l": nv, "r": 4, "edges": [[u, 1 + (u % 4)] for u in range(1, nv + 1)]}):
                 infos.append(("subst", dict(t=fn, nv=nv, clauses=cl, graph=g)))
+    # ---- wide gadgets (arity beyond 16: sampled assignments; seeded change C05-6 only shows at arity >= 17)
+    wide = [("xor", 17), ("maj", 17), ("or", 40), ("eq", 33), ("one", 18)] + ([("xor", 18), ("xor", 19), ("maj", 18)] if tier != "quick" else [])
+    for t, k in wide:
+        for cl in ([[1]], [[-1]]):
+            if cl == [[1]] or t != "xor" or tier != "quick":
+                infos.append(("subst", dict(t=t, k=k, nv=1, clauses=cl)))
+    infos.append(("subst", dict(t="xorcomp", nv=2, clauses=[[-1], [2]],
+                                graph={"l": 2, "r": 19, "edges": [[1, v] for v in range(1, 18)] + [[2, 18], [2, 19], [2, 1]]})))
     # ---- argument checks and malformed formulas (outcome class only)
     for t in KSUB + ["lin"] + sorted(NKSUB):
         for k in (0, -1):
